@@ -22,6 +22,9 @@ rule("C16.i", "a wrapper clips the window of a wrapped asset by intersection: st
      props=["C16", "C08"])
 rule("C08.h", "the intersection of the wrapper's window with the window of a wrapped asset covers the case that the wrapped asset has no "
               "bound of its own (None): the wrapper's bound applies", floor=2, props=["C08", "C16"])
+rule("C08.i", "an optional bound (start / end and other attributes kept from a constructor parameter that defaults to None) that is an operand "
+              "of max() / min() or of an ordering comparison is covered by a None test of that very operand (a guard that tests another "
+              "attribute - self.start for self.end - clips under the wrong condition or not at all)", floor=4, props=["C08", "C16"])
 rule("C07.u", "the result of a call that does not modify its receiver (Index.insert / append / drop / union, np.append / hstack / delete, "
               "pd.concat ...) is not discarded", floor=0, props=["C07", "C14"])
 rule("C15.i", "a variable of the fix window is pinned to its previous value itself: l[sel] = u[sel] = x_previous[sel] with one selector and "
@@ -53,7 +56,53 @@ def _is_index(ctx, fn, e, st, depth=0):
     return False
 
 
-@analysis("windows", ["C16.i", "C08.h", "C07.u", "C15.i", "C15.j"])
+def _not_none_facts(test, truth):
+    """expressions (as text) that are known not to be None when `test` evaluates to `truth`."""
+    if isinstance(test, ast.UnaryOp) and isinstance(test.op, ast.Not):
+        return _not_none_facts(test.operand, not truth)
+    if isinstance(test, ast.BoolOp):
+        if (isinstance(test.op, ast.And) and truth) or (isinstance(test.op, ast.Or) and not truth):
+            out = set()
+            for v in test.values:
+                out |= _not_none_facts(v, truth)
+            return out
+        return set()
+    nt = au.none_test(test)
+    if nt is not None:
+        e, is_none = nt
+        if truth != is_none:
+            return {au.U(e)}
+    return set()
+
+
+def _known_not_none(p, node, text):
+    child = node
+    for a in p.ancestors(node):
+        if isinstance(a, ast.If):
+            if any(child is x for x in a.body) and text in _not_none_facts(a.test, True):
+                return True
+            if any(child is x for x in a.orelse) and text in _not_none_facts(a.test, False):
+                return True
+        if isinstance(a, ast.IfExp):
+            if child is a.body and text in _not_none_facts(a.test, True):
+                return True
+            if child is a.orelse and text in _not_none_facts(a.test, False):
+                return True
+        if isinstance(a, (ast.FunctionDef, ast.AsyncFunctionDef)):
+            # an earlier `if x is None: x = ... / return / raise` at the top level of the function
+            for s0 in a.body:
+                if s0.lineno >= getattr(node, "lineno", 0):
+                    break
+                if isinstance(s0, ast.If) and text in _not_none_facts(s0.test, False) and not s0.orelse and s0.body and (
+                        isinstance(s0.body[-1], (ast.Return, ast.Raise, ast.Continue)) or any(
+                            isinstance(y, ast.Assign) and any(au.U(t0) == text for t0 in y.targets) for y in s0.body)):
+                    return True
+            break
+        child = a
+    return False
+
+
+@analysis("windows", ["C16.i", "C08.h", "C07.u", "C15.i", "C15.j", "C08.i"])
 def run(ctx):
     p = ctx.p
     # ================================================================= C16.i / C08.h
@@ -101,6 +150,41 @@ def run(ctx):
     if n_i == 0:
         ctx.ob("C16.i", "package", "window intersection of a wrapper", None, "no assignment x.start = max(..) / x.end = min(..) found (rewritten?)")
         ctx.ob("C08.h", "package", "window intersection of a wrapper", None, "no assignment x.start = max(..) / x.end = min(..) found (rewritten?)")
+
+    # ================================================================= C08.i optional bounds are tested before they are compared
+    optional_attrs = set()
+    for ci in p.classes.values():
+        init = ci.methods.get("__init__")
+        if init is None:
+            continue
+        opt_params = {q.name for q in init.params if q.has_default and au.is_none(q.default)}
+        for st in au.walk_stmts(init.body):
+            if isinstance(st, ast.Assign) and isinstance(st.value, ast.Name) and st.value.id in opt_params:
+                for t0 in st.targets:
+                    if isinstance(t0, ast.Attribute) and au.base_name(t0) == "self" and t0.attr in ("start", "end"):
+                        optional_attrs.add(t0.attr)
+    n_o = 0
+    for fn in sorted(p.all_functions(), key=lambda f: f.qualname):
+        if fn.parent is not None or fn.cls is None or fn.name == "__init__" or fn.cls.name == "Timegrid":
+            continue
+        for n in au.walk_local(fn.node, include_self=False):
+            operands = []
+            if isinstance(n, ast.Call) and isinstance(n.func, ast.Name) and n.func.id in ("max", "min"):
+                operands = list(n.args)
+            elif isinstance(n, ast.Compare) and any(isinstance(o, (ast.Lt, ast.LtE, ast.Gt, ast.GtE)) for o in n.ops):
+                operands = [n.left] + list(n.comparators)
+            for e in operands:
+                if not (isinstance(e, ast.Attribute) and e.attr in optional_attrs and isinstance(e.value, ast.Name)):
+                    continue
+                n_o += 1
+                ok = _known_not_none(p, n, au.U(e))
+                ctx.ob("C08.i", fn, "%s in %s" % (au.U(e), au.short(n, 50)), ok,
+                       "%s may be None (it is kept from a constructor parameter that defaults to None) and is compared here, but no "
+                       "enclosing test establishes that it is set - the guard around this statement tests something else: the clip then "
+                       "happens under the wrong condition (a structured asset with an end but no start no longer clips the end of its inner "
+                       "assets) or raises TypeError when the tested attribute is set and this one is not" % au.U(e), node=n)
+    if n_o == 0:
+        ctx.ob("C08.i", "package", "compared optional window bounds", None, "no max() / min() / ordering comparison over an optional start / end found")
 
     # ================================================================= C07.u discarded results
     for fn in sorted(p.all_functions(), key=lambda f: f.qualname):
